@@ -215,6 +215,9 @@ func runC16(r *Run) {
 		}
 		r.Extra["race_pairs"] = pairs
 	}
+	if r.unknownViolations() == 0 {
+		consistencyHammer(r, "[C16]")
+	}
 	r.Case("hammer")
 	r.Case("facts")
 	r.Sample(map[string]any{"hammer_workloads": []string{"static endpoints + memory store with 50ms idle timeout", "discovery endpoints (cold cache, first answers fail)", "Redis store", "TLS pool with CA file rewrites", "secret reconcile"}})
